@@ -63,7 +63,7 @@ Theorem C20_plain_matrix_error : forall (v : @variant R) (x : list R) (tau : R),
   tau * (nsum NumR (sqdiffs NumR x) - nsum NumR (wsqdiffs NumR v x)).
 Proof. exact plain_matrix_error_l. Qed.
 Print Assumptions C20_plain_matrix_error.
-(* ... which is not zero: the property is FALSE of the code for weighted fields (finding
+(* ... which is not zero: the property was FALSE of the code before fix a1e0fb1 for weighted fields (finding
    C20:GMRF.precision_matrix:weights-ignored / :tree_model-ignored; the full statement
    "precision_matrix() of the code gives the quadratic form of GMRF() for all three variants"
    therefore holds of the model's matrix above, not of the code's). *)
